@@ -440,6 +440,7 @@ async def search(ctx):
                             {"files_a": {p: h.digest.hex() for p, h in fa.items()},
                              "files_b": {p: h.digest.hex() for p, h in fb.items()}, "digest": impl_out(fa).hex()}))
     await oracle_refreshed(ctx)
+    oracle_batch(ctx)
     import hashrace
 
     problems, ncase = hashrace.run(ctx.rng("hashrace"), ctx.budget(40, 600))
@@ -449,6 +450,73 @@ async def search(ctx):
                             "a file rewritten right after its bytes were read for hashing is recorded with the digest of "
                             "the old content and the stat fields of the new one: the next refreshed() takes the unchanged "
                             "short cut and keeps the wrong digest", {**pr, "how": "harness/hashrace.py run()"}))
+
+
+def oracle_batch(ctx):
+    """The batch functions the executor uses (`compute_inp_hashes`, `compute_out_hashes`): every file whose
+    content, size or mode changed (with a stat field that moved) is in `new_hashes` and is reported, an unchanged
+    one is not; `all_hashes` holds the refreshed hash of every path."""
+    import threading
+
+    from stepup.core.hash import compute_inp_hashes, compute_out_hashes
+
+    r = ctx.rng("oracle-batch")
+    tmp = tempfile.mkdtemp(prefix="verif-c13b-")
+    cwd = os.getcwd()
+    os.chdir(tmp)
+    try:
+        for i in range(ctx.budget(60, 800)):
+            names = [f"f{i}_{j}" for j in range(r.randint(2, 4))]
+            for n in names:
+                with open(n, "wb") as fh:
+                    fh.write(bytes(r.getrandbits(8) for _ in range(r.choice([1, 5, 20]))))
+                os.chmod(n, 0o644)
+                os.utime(n, (1_000_000.0, 1_000_000.0))
+            old = {n: FileHash.unknown().refreshed(n) for n in names}
+            changed = {}
+            for n in names:
+                kind = r.choice(["same", "same", "content", "mode", "size", "vanish"])
+                if kind == "content":
+                    with open(n, "r+b") as fh:
+                        data = bytearray(fh.read())
+                        data[0] ^= 0xFF
+                        fh.seek(0)
+                        fh.write(data)
+                    os.utime(n, (1_000_500.0, 1_000_500.0))
+                elif kind == "size":
+                    with open(n, "ab") as fh:
+                        fh.write(b"+")
+                    os.utime(n, (1_000_000.0, 1_000_000.0))  # same mtime: the size moved
+                elif kind == "mode":
+                    os.chmod(n, 0o600)
+                elif kind == "vanish":
+                    os.remove(n)
+                if kind != "same":
+                    changed[n] = kind
+            for fname, fn in (("compute_inp_hashes", compute_inp_hashes), ("compute_out_hashes", compute_out_hashes)):
+                if fname == "compute_inp_hashes" or not any(k == "vanish" for k in changed.values()):
+                    try:
+                        res = fn(dict(old), threading.Event())
+                    except Exception as exc:  # noqa: BLE001
+                        ctx.stats.count(f"oracle-batch:{fname}:raises-{type(exc).__name__}")
+                        continue
+                    ctx.stats.count(f"oracle-batch:{fname}")
+                    missed = sorted(n for n in changed if n not in res.new_hashes)
+                    extra = sorted(n for n in res.new_hashes if n not in changed)
+                    silent = (sorted(n for n in changed if not any(n in m for m in res.messages))
+                              if fname == "compute_inp_hashes" else [])
+                    if missed or extra or silent:
+                        ctx.finding(Finding(PID, f"batch-misses-change:{fname}:" + (changed[missed[0]] if missed else
+                                                                                    "unchanged-reported" if extra else "not-reported"),
+                                            f"{fname} on {names}: changed {changed}, new_hashes has {sorted(res.new_hashes)}, "
+                                            f"messages {res.messages[:3]}",
+                                            {"changed": changed, "new_hashes": sorted(res.new_hashes), "messages": res.messages}))
+            for n in names:
+                if os.path.exists(n):
+                    os.remove(n)
+    finally:
+        os.chdir(cwd)
+        shutil.rmtree(tmp, ignore_errors=True)
 
 
 async def oracle_refreshed(ctx):
